@@ -205,7 +205,8 @@ __CPROVER_ensures(xv_est_n == __CPROVER_old(xv_est_n) + 1 && xv_est_fd == fd && 
 #define TRK_NUM_OK(t) ((t)->num_remote_ips >= 0 && (t)->num_remote_ips <= TRK_MAX_IPS)
 #define TRK_IPS_BYTES(t) (sizeof(struct xcm_addr_ip) * ((t)->num_remote_ips > 0 ? (t)->num_remote_ips : 1))
 /* every address of the list is an IPv4 or an IPv6 one (get_ip / host_parse produce nothing else) */
-#define TRK_FAMS_OK(t) __CPROVER_forall { int xv_q; (0 <= xv_q && xv_q < TRK_MAX_IPS) ==> (xv_q < (t)->num_remote_ips ==> FAM_OK((t)->remote_ips[xv_q].family)) }
+#define TRK_FAMS_OK_V(t, v) __CPROVER_forall { int v; (0 <= v && v < TRK_MAX_IPS) ==> (v < (t)->num_remote_ips ==> FAM_OK((t)->remote_ips[v].family)) }
+#define TRK_FAMS_OK(t) TRK_FAMS_OK_V(t, xv_q)
 #define TRK_FDS_OK(t) (TRK_FD_OK((t)->fd4) && TRK_FD_OK((t)->fd6) && ((t)->fd4 < 0 || (t)->fd4 != (t)->fd6))
 #define TRK_IDX_OK(t) ((t)->ip_idx >= -1 && (t)->ip_idx < ((t)->num_remote_ips > 0 ? (t)->num_remote_ips : 0))
 #define TRK_LOCAL_OK(t) ((t)->local_ip == NULL || FAM_OK((t)->local_ip->family))
@@ -217,15 +218,17 @@ __CPROVER_ensures(xv_est_n == __CPROVER_old(xv_est_n) + 1 && xv_est_fd == fd && 
 #define TRK_GHOST_OK_S(slack) (XV_DT_CNT_OK(xv_regs) && XV_DT_CNT_OK(xv_timers) && xv_regs < XV_DT_CNT_MAX - (slack) && xv_timers < XV_DT_CNT_MAX - (slack) && \
                                xv_pre_eff_fd == -1 && xv_pre_bind_fd == -1)
 #define TRK_GHOST_OK(t) TRK_GHOST_OK_S(2)
-#define XV_FK_SAME_TC (xv_fdt.e[xv_fk].open == __CPROVER_old(xv_fdt.e[xv_fk].open) && xv_fdt.e[xv_fk].nonblock == __CPROVER_old(xv_fdt.e[xv_fk].nonblock))
+#define XV_FK_SAME_TC (xv_fdt.e[xv_fk].open == __CPROVER_old(xv_fdt.e[xv_fk].open) && (xv_fdt.e[xv_fk].open ==> xv_fdt.e[xv_fk].nonblock == __CPROVER_old(xv_fdt.e[xv_fk].nonblock)))
 /* no descriptor opened, closed or altered */
 #define TRK_FDT_SAME (XV_FK_SAME_TC && XV_SAME(xv_open_cnt) && XV_SAME(xv_close_calls) && XV_SAME(xv_socket_calls))
 
 #define TRK_FRESH(t) (__CPROVER_is_fresh(t, sizeof(struct track)))
 #define TRK_IPS_FRESH(t) (__CPROVER_is_fresh((t)->remote_ips, TRK_IPS_BYTES(t)))
+#define TRK_IPS_FREEABLE(t) (__CPROVER_is_fresh((t)->remote_ips, 1))
 #define TRK_LOCAL_FRESH(t) ((t)->local_ip == NULL || __CPROVER_is_fresh((t)->local_ip, sizeof(struct xcm_addr_ip)))
-#define TRK_REQUIRES_SHAPE(t) (TRK_FAMS_OK(t) && TRK_FDS_OK(t) && TRK_IDX_OK(t) && TRK_LOCAL_OK(t) && (t)->timer_mgr != NULL && (t)->xpoll != NULL && \
-                               xv_fk >= 0 && xv_fk < XV_NFD)
+#define TRK_REQUIRES_SHAPE(t) TRK_REQUIRES_SHAPE_V(t, xv_q)
+#define TRK_REQUIRES_SHAPE_V(t, v) (TRK_FAMS_OK_V(t, v) && TRK_FDS_OK(t) && TRK_IDX_OK(t) && TRK_LOCAL_OK(t) && (t)->timer_mgr != NULL && (t)->xpoll != NULL && \
+                               xv_fk >= 0 && xv_fk < XV_NFD && (t)->tcp_connect_timeout == (t)->tcp_connect_timeout /* not NaN */)
 #define TRK_REQUIRES_REST(t) (TRK_REQUIRES_SHAPE(t) && TRK_GHOST_OK(t))
 
 #define TRK_ASSIGNS(t) (t)->ip_idx, (t)->state, (t)->badness_reason, (t)->fd_reg_id, (t)->timer_id
@@ -429,7 +432,13 @@ static int track_get_connected_fd(struct track *track, int *fd, int64_t *scope, 
 __CPROVER_requires(TRK_FRESH(track) && TRK_NUM_OK(track))
 __CPROVER_requires(TRK_IPS_FRESH(track))
 __CPROVER_requires(TRK_LOCAL_FRESH(track))
-__CPROVER_requires(TRK_REQUIRES_SHAPE(track) && TRK_GHOST_OK_S(8) && TRK_ENTRY_STATE_OK(track) && TRK_REASON_OK(track))
+__CPROVER_requires(TRK_FAMS_OK(track))
+__CPROVER_requires(TRK_FDS_OK(track))
+__CPROVER_requires(TRK_IDX_OK(track) && TRK_LOCAL_OK(track))
+__CPROVER_requires(track->timer_mgr != NULL && track->xpoll != NULL && xv_fk >= 0 && xv_fk < XV_NFD && track->tcp_connect_timeout == track->tcp_connect_timeout)
+__CPROVER_requires(TRK_GHOST_OK_S(8))
+__CPROVER_requires(TRK_ENTRY_STATE_OK(track))
+__CPROVER_requires(TRK_REASON_OK(track))
 __CPROVER_requires(__CPROVER_is_fresh(fd, sizeof(*fd)) && __CPROVER_is_fresh(scope, sizeof(*scope)) && __CPROVER_is_fresh(tcp_opts, sizeof(*tcp_opts)))
 __CPROVER_assigns(TRK_ASSIGNS(track), track->fd4, track->fd6, *fd, *scope, *tcp_opts, TCN_GHOST_ASSIGNS)
 __CPROVER_ensures((__CPROVER_return_value == 0 || __CPROVER_return_value == -1) && (TRK_IN_PROGRESS(track) || track->state == track_state_bad || track->state == track_state_finished))
@@ -467,6 +476,7 @@ __CPROVER_requires(mgr == NULL || (xv_tmgrs > 0 && (!owner || xv_regs > 0)))
 __CPROVER_assigns(xv_tmgrs, xv_xp, xv_tm)
 __CPROVER_ensures(mgr == NULL ? (XV_SAME(xv_tmgrs) && XV_SAME(xv_regs) && XV_SAME(xv_timers)) \
                               : (xv_tmgrs == __CPROVER_old(xv_tmgrs) - 1 && xv_regs == __CPROVER_old(xv_regs) - (owner ? 1 : 0) && xv_timers == 0))
+__CPROVER_ensures((mgr == NULL || !owner) ==> (XV_SAME(xv_del_id) && XV_XP_REG_SAME))
 ;
 
 /* ---- track_destroy ----------------------------------------------------------------------------------------------------- */
@@ -477,9 +487,12 @@ __CPROVER_ensures(mgr == NULL ? (XV_SAME(xv_tmgrs) && XV_SAME(xv_regs) && XV_SAM
 #endif
 static void track_destroy(struct track *track, bool owner)
 __CPROVER_requires(track == NULL || (TRK_FRESH(track) && TRK_NUM_OK(track)))
-__CPROVER_requires(track == NULL || TRK_IPS_FRESH(track))
-__CPROVER_requires(track == NULL || (track->timer_mgr != NULL && track->xpoll != NULL && (track->fd_reg_id < 0 || xv_regs > 0) && (track->timer_id < 0 || xv_timers > 0) && \
-                                     xv_g_ips == (const void *)track->remote_ips))
+/* (the address list: a heap object of its own; its length does not matter here) */
+__CPROVER_requires(track == NULL || TRK_IPS_FREEABLE(track))
+__CPROVER_requires(track == NULL || (track->timer_mgr != NULL && track->xpoll != NULL && (track->fd_reg_id < 0 || xv_regs > 0) && (track->timer_id < 0 || xv_timers > 0)))
+#ifdef XV_TD_JOB
+__CPROVER_requires(track == NULL || xv_g_ips == (const void *)track->remote_ips)
+#endif
 __CPROVER_assigns(xv_xp, xv_tm)
 __CPROVER_assigns(track != NULL: track->timer_id)
 __CPROVER_frees(track != NULL: track->remote_ips; track)
@@ -490,6 +503,23 @@ __CPROVER_ensures((track != NULL && owner) ==> (xv_regs == __CPROVER_old(xv_regs
 __CPROVER_ensures((track == NULL || !owner) ==> (XV_SAME(xv_regs) && XV_SAME(xv_timers) && XV_SAME(xv_del_id)))
 /* PO[C08] track_destroy.frees_its_memory */
 __CPROVER_ensures_td(track != NULL ==> (__CPROVER_was_freed(track) && __CPROVER_was_freed(xv_g_ips)))
+;
+
+/* ---- dup_ips: the track's private copy of the address list -------------------------------------------------------------- */
+static struct xcm_addr_ip *dup_ips(const struct xcm_addr_ip *ips, int num_ips)
+__CPROVER_requires(num_ips >= 1 && num_ips <= TRK_MAX_IPS && __CPROVER_is_fresh(ips, sizeof(struct xcm_addr_ip) * num_ips) && xv_mc < sizeof(struct xcm_addr_ip) * TRK_MAX_IPS)
+__CPROVER_assigns()
+/* PO[C13] dup_ips.exact_copy: memory of its own, the same bytes (xv_mc: any offset), in particular the same family in every entry */
+__CPROVER_ensures(__CPROVER_is_fresh(__CPROVER_return_value, sizeof(struct xcm_addr_ip) * num_ips) && \
+                  (xv_mc < sizeof(struct xcm_addr_ip) * num_ips ==> ((const uint8_t *)__CPROVER_return_value)[xv_mc] == ((const uint8_t *)ips)[xv_mc]))
+#ifndef XV_DUP_JOB
+/* TRUSTED(libc) memcpy copies EVERY byte.  Job dnstc.dup_ips proves the clause above on the real body against env/base.h's
+ * memcpy model, which keeps the bytes at offsets 0..7 and at the arbitrary offset xv_mc only (an exact model of a copy of up
+ * to 640 bytes between two objects of symbolic size was tried: 26M clauses / solver out of memory).  "Every byte at offset
+ * xv_mc, for every xv_mc" IS every byte; the quantified form below is that statement for the family fields, which
+ * track_connect_next needs for all entries at once.  It is assumed where dup_ips is replaced, not proved. */
+__CPROVER_ensures(__CPROVER_forall { int xv_q; (0 <= xv_q && xv_q < TRK_MAX_IPS) ==> (xv_q < num_ips ==> __CPROVER_return_value[xv_q].family == ips[xv_q].family) })
+#endif
 ;
 
 /* ---- track_create -------------------------------------------------------------------------------------------------------- */
@@ -503,6 +533,7 @@ __CPROVER_requires(num_remote_ips >= 1 && num_remote_ips <= TRK_MAX_IPS && __CPR
 __CPROVER_requires(IPS_FAMS_OK(remote_ips, num_remote_ips) && (local_ip == NULL || FAM_OK(local_ip->family)))
 __CPROVER_requires(TRK_FD_OK(fd4) && TRK_FD_OK(fd6) && (fd4 >= 0 || fd6 >= 0) && fd4 != fd6 && timer_mgr != NULL && xpoll != NULL && TRK_GHOST_OK_S(4) && \
                    xv_fk >= 0 && xv_fk < XV_NFD && xv_mc < sizeof(struct xcm_addr_ip) * TRK_MAX_IPS)
+__CPROVER_requires(tcp_connect_timeout == tcp_connect_timeout && initial_delay == initial_delay /* neither is NaN */)
 __CPROVER_assigns(TCN_GHOST_ASSIGNS)
 __CPROVER_ensures(__CPROVER_is_fresh(__CPROVER_return_value, sizeof(struct track)))
 /* PO[C13] track_create.remembers_what_it_was_given: descriptors, local address (borrowed), scope, timeout, options SNAPSHOT, port, delay, timer manager, xpoll */
@@ -529,6 +560,162 @@ __CPROVER_ensures(!(initial_delay > 0) ==> TCN_WAKEUP(__CPROVER_return_value))
 /* PO[C08] track_create.resources */
 __CPROVER_ensures(!(initial_delay > 0) ==> TCN_RESOURCES(__CPROVER_return_value, __CPROVER_old(xv_regs), __CPROVER_old(xv_timers)))
 __CPROVER_ensures(TRK_FDT_SAME)
+;
+
+
+/* ======================================================================================================================== */
+/* struct tconnect                                                                                                          */
+/* ======================================================================================================================== */
+#define XV_TABLE_SAME_EXCEPT2(a, b) ((xv_fk != (a) && xv_fk != (b)) ==> XV_FK_SAME_TC)
+#define TC_FDS_OK(tc) (TRK_FD_OK((tc)->fd4) && TRK_FD_OK((tc)->fd6) && ((tc)->fd4 < 0 || (tc)->fd4 != (tc)->fd6))
+
+/* ---- tconnect_create ------------------------------------------------------------------------------------------------------ */
+struct tconnect *tconnect_create(enum tconnect_algorithm algorithm, struct xpoll *xpoll, void *log_ref)
+__CPROVER_requires(xpoll != NULL && XV_FD_GHOST_RANGE && XV_DT_CNT_OK(xv_tmgrs) && XV_DT_CNT_OK(xv_regs) && xv_regs > 0 && xv_fk >= 0 && xv_fk < XV_NFD)
+__CPROVER_assigns(xv_errno, XV_SOCKET_ASSIGNS, XV_CLOSE_ASSIGNS, xv_tmgrs, xv_xp, xv_tm)
+/* PO[C08] tconnect_create.failure_leaves_nothing_behind: whichever of socket(AF_INET), socket(AF_INET6), timer_mgr_create fails: NULL, errno set, no descriptor, no timer manager, no registration left */
+__CPROVER_ensures(__CPROVER_return_value == NULL ==> (XV_ERRNO_OK(xv_errno) && XV_SAME(xv_open_cnt) && XV_SAME(xv_tmgrs) && XV_SAME(xv_regs) && XV_FK_SAME_TC && \
+                  xv_close_calls - __CPROVER_old(xv_close_calls) <= 2))
+/* PO[C08,C05] tconnect_create.success_owns_two_nonblocking_sockets_and_a_timer_manager */
+__CPROVER_ensures(__CPROVER_return_value != NULL ==> (__CPROVER_is_fresh(__CPROVER_return_value, sizeof(struct tconnect)) && \
+                  XV_FD_OURS(__CPROVER_return_value->fd4) && xv_fdt.e[__CPROVER_return_value->fd4].nonblock && \
+                  XV_FD_OURS(__CPROVER_return_value->fd6) && xv_fdt.e[__CPROVER_return_value->fd6].nonblock && __CPROVER_return_value->fd4 != __CPROVER_return_value->fd6 && \
+                  xv_open_cnt == __CPROVER_old(xv_open_cnt) + 2 && xv_socket_calls == __CPROVER_old(xv_socket_calls) + 2 && XV_SAME(xv_close_calls) && \
+                  xv_tmgrs == __CPROVER_old(xv_tmgrs) + 1 && xv_regs == __CPROVER_old(xv_regs) + 1 && __CPROVER_return_value->timer_mgr != NULL && \
+                  __CPROVER_return_value->num_tracks == 0 && __CPROVER_return_value->algorithm == algorithm && __CPROVER_return_value->xpoll == xpoll && \
+                  __CPROVER_return_value->log_ref == log_ref && XV_TABLE_SAME_EXCEPT2(__CPROVER_return_value->fd4, __CPROVER_return_value->fd6)))
+;
+
+/* ---- tconnect_destroy ----------------------------------------------------------------------------------------------------- */
+#define TC_T(tc, i) ((tc)->tracks[i])
+#define TC_TRACK_HELD_OK(t) (((t)->fd_reg_id < 0 || xv_regs >= 3) && ((t)->timer_id < 0 || xv_timers >= 2) && (t)->timer_mgr != NULL && (t)->xpoll != NULL)
+void tconnect_destroy(struct tconnect *tconnect, bool owner)
+__CPROVER_requires(tconnect == NULL || (__CPROVER_is_fresh(tconnect, sizeof(struct tconnect)) && tconnect->num_tracks >= 0 && tconnect->num_tracks <= MAX_NUM_TRACKS))
+__CPROVER_requires((tconnect != NULL && tconnect->num_tracks >= 1) ==> (TRK_FRESH(TC_T(tconnect, 0)) && TRK_NUM_OK(TC_T(tconnect, 0))))
+__CPROVER_requires((tconnect != NULL && tconnect->num_tracks >= 1) ==> (TRK_IPS_FREEABLE(TC_T(tconnect, 0)) && TC_TRACK_HELD_OK(TC_T(tconnect, 0))))
+__CPROVER_requires((tconnect != NULL && tconnect->num_tracks >= 2) ==> (TRK_FRESH(TC_T(tconnect, 1)) && TRK_NUM_OK(TC_T(tconnect, 1))))
+__CPROVER_requires((tconnect != NULL && tconnect->num_tracks >= 2) ==> (TRK_IPS_FREEABLE(TC_T(tconnect, 1)) && TC_TRACK_HELD_OK(TC_T(tconnect, 1))))
+__CPROVER_requires(tconnect == NULL || (TC_FDS_OK(tconnect) && tconnect->timer_mgr != NULL && xv_tmgrs > 0 && xv_regs >= 1))
+__CPROVER_requires(XV_FD_GHOST_RANGE && XV_DT_CNT_OK(xv_regs) && XV_DT_CNT_OK(xv_timers) && XV_DT_CNT_OK(xv_tmgrs) && xv_fk >= 0 && xv_fk < XV_NFD)
+__CPROVER_assigns(xv_errno, XV_CLOSE_ASSIGNS, xv_tmgrs, xv_xp, xv_tm)
+__CPROVER_assigns((tconnect != NULL && tconnect->num_tracks >= 1): TC_T(tconnect, 0)->timer_id; (tconnect != NULL && tconnect->num_tracks >= 2): TC_T(tconnect, 1)->timer_id)
+__CPROVER_frees(tconnect; (tconnect != NULL && tconnect->num_tracks >= 1): TC_T(tconnect, 0); (tconnect != NULL && tconnect->num_tracks >= 1): TC_T(tconnect, 0)->remote_ips; \
+                (tconnect != NULL && tconnect->num_tracks >= 2): TC_T(tconnect, 1); (tconnect != NULL && tconnect->num_tracks >= 2): TC_T(tconnect, 1)->remote_ips)
+/* PO[C08] tconnect_destroy.closes_the_descriptors_it_still_owns: fd4/fd6 (unless handed over: -1), nothing else; errno survives */
+__CPROVER_ensures(tconnect != NULL ==> (xv_open_cnt == __CPROVER_old(xv_open_cnt) - TRK_HELD(__CPROVER_old(tconnect->fd4)) - TRK_HELD(__CPROVER_old(tconnect->fd6)) && \
+                  xv_close_calls == __CPROVER_old(xv_close_calls) + TRK_HELD(__CPROVER_old(tconnect->fd4)) + TRK_HELD(__CPROVER_old(tconnect->fd6)) && \
+                  XV_TABLE_SAME_EXCEPT2(__CPROVER_old(tconnect->fd4), __CPROVER_old(tconnect->fd6)) && XV_SAME(xv_errno)))
+__CPROVER_ensures((tconnect != NULL && __CPROVER_old(tconnect->fd4) >= 0) ==> !xv_fdt.e[__CPROVER_old(tconnect->fd4)].open)
+__CPROVER_ensures((tconnect != NULL && __CPROVER_old(tconnect->fd6) >= 0) ==> !xv_fdt.e[__CPROVER_old(tconnect->fd6)].open)
+/* PO[C08] tconnect_destroy.releases_timer_manager_and_all_timers */
+__CPROVER_ensures(tconnect != NULL ==> (xv_tmgrs == __CPROVER_old(xv_tmgrs) - 1 && xv_timers == 0))
+/* PO[C08] tconnect_destroy.owner_releases_every_registration: those of the tracks and the timer manager's */
+__CPROVER_ensures((tconnect != NULL && owner) ==> xv_regs == __CPROVER_old(xv_regs) - 1 \
+                  - (__CPROVER_old(tconnect->num_tracks) >= 1 ? TRK_HELD(__CPROVER_old(TC_T(tconnect, 0)->fd_reg_id)) : 0) \
+                  - (__CPROVER_old(tconnect->num_tracks) >= 2 ? TRK_HELD(__CPROVER_old(TC_T(tconnect, 1)->fd_reg_id)) : 0))
+/* PO[C08] tconnect_destroy.cleanup_is_process_local: owner == false (xcm_cleanup in a forked child): the xpoll instance is not touched */
+__CPROVER_ensures((tconnect != NULL && !owner) ==> (XV_SAME(xv_regs) && XV_SAME(xv_del_id)))
+/* PO[C08] tconnect_destroy.null_is_noop */
+__CPROVER_ensures(tconnect == NULL ==> (XV_SAME(xv_open_cnt) && XV_SAME(xv_close_calls) && XV_SAME(xv_tmgrs) && XV_SAME(xv_regs) && XV_SAME(xv_timers) && XV_FK_SAME_TC))
+;
+
+
+/* ---- tconnect_connect ------------------------------------------------------------------------------------------------------- */
+#define HAPPY_DELAY (200e-3)      /* HAPPY_EYEBALLS_INITIAL_IPV4_DELAY */
+#define TC_EXISTS_FAM(ips, n, fam, v) __CPROVER_exists { int v; (0 <= v && v < TRK_MAX_IPS) && v < (int)(n) && (ips)[v].family == (fam) }
+/* the track was created from THESE arguments (everything but descriptors, list length and delay, which differ per algorithm) */
+#define TC_TRACK_ARGS(t) ((t)->local_ip == local_ip && (t)->local_port == local_port && (t)->tcp_connect_timeout == tcp_connect_timeout && OPTS_EQ(&(t)->tcp_opts, tcp_opts) && \
+                          (t)->remote_port == remote_port && (t)->timer_mgr == tconnect->timer_mgr && (t)->xpoll == tconnect->xpoll && (t)->log_ref == tconnect->log_ref && \
+                          (xv_mc < sizeof(struct xcm_addr_ip) * (t)->num_remote_ips ==> TCR_U8((t)->remote_ips)[xv_mc] == TCR_U8(remote_ips)[xv_mc]))
+#define TC_SCOPE_REFUSED (scope >= 0 && num_remote_ips == 1 && remote_ips[0].family == AF_INET)
+#define TC_NOTHING_DONE (XV_SAME(tconnect->num_tracks) && XV_SAME(xv_timers) && XV_SAME(xv_regs) && XV_SAME(xv_eff_n) && XV_SAME(xv_conn_n))
+int tconnect_connect(struct tconnect *tconnect, const struct xcm_addr_ip *local_ip, uint16_t local_port, int64_t scope, double tcp_connect_timeout, \
+                     const struct tcp_opts *tcp_opts, const struct xcm_addr_ip *remote_ips, size_t num_remote_ips, uint16_t remote_port)
+__CPROVER_requires(__CPROVER_is_fresh(tconnect, sizeof(struct tconnect)) && num_remote_ips >= 1 && num_remote_ips <= TRK_MAX_IPS)
+__CPROVER_requires(__CPROVER_is_fresh(remote_ips, sizeof(struct xcm_addr_ip) * num_remote_ips) && __CPROVER_is_fresh(tcp_opts, sizeof(*tcp_opts)) && \
+                   (local_ip == NULL || __CPROVER_is_fresh(local_ip, sizeof(*local_ip))))
+__CPROVER_requires(IPS_FAMS_OK(remote_ips, (int)num_remote_ips) && (local_ip == NULL || FAM_OK(local_ip->family)))
+/* a tconnect as tconnect_create leaves it: both descriptors, a timer manager, no track yet */
+__CPROVER_requires(XV_FD_OURS(tconnect->fd4) && xv_fdt.e[tconnect->fd4].nonblock && XV_FD_OURS(tconnect->fd6) && xv_fdt.e[tconnect->fd6].nonblock && tconnect->fd4 != tconnect->fd6 && \
+                   tconnect->timer_mgr != NULL && tconnect->xpoll != NULL && tconnect->num_tracks == 0)
+__CPROVER_requires(TRK_GHOST_OK_S(16) && xv_fk >= 0 && xv_fk < XV_NFD && xv_mc < sizeof(struct xcm_addr_ip) * TRK_MAX_IPS && tcp_connect_timeout == tcp_connect_timeout)
+__CPROVER_assigns(tconnect->tracks[0], tconnect->tracks[1], tconnect->num_tracks, TCN_GHOST_ASSIGNS)
+__CPROVER_ensures(__CPROVER_return_value == 0 || __CPROVER_return_value == -1)
+/* PO[C13] tconnect_connect.scope_with_single_ipv4_refused: EINVAL before anything is created */
+__CPROVER_ensures(TC_SCOPE_REFUSED ==> (__CPROVER_return_value == -1 && xv_errno == EINVAL && TC_NOTHING_DONE))
+/* PO[C13] tconnect_connect.unknown_algorithm_refused */
+__CPROVER_ensures((!TC_SCOPE_REFUSED && tconnect->algorithm != tconnect_algorithm_single && tconnect->algorithm != tconnect_algorithm_sequential && \
+                   tconnect->algorithm != tconnect_algorithm_happy_eyeballs) ==> (__CPROVER_return_value == -1 && xv_errno == ENOTSUP && TC_NOTHING_DONE))
+/* PO[C13] tconnect_connect.single_tries_only_the_first_address: ONE track, over both descriptors, whose list is remote_ips[0] alone, not delayed */
+__CPROVER_ensures((!TC_SCOPE_REFUSED && tconnect->algorithm == tconnect_algorithm_single) ==> (__CPROVER_return_value == 0 && tconnect->num_tracks == 1 && \
+                  TC_T(tconnect, 0)->num_remote_ips == 1 && TC_T(tconnect, 0)->fd4 == tconnect->fd4 && TC_T(tconnect, 0)->fd6 == tconnect->fd6 && \
+                  TC_T(tconnect, 0)->scope == scope && TC_TRACK_ARGS(TC_T(tconnect, 0)) && TC_T(tconnect, 0)->state != track_state_initial_delay))
+/* PO[C13] tconnect_connect.sequential_walks_the_whole_list_in_order: ONE track, over both descriptors, with all num_remote_ips addresses, not delayed */
+__CPROVER_ensures((!TC_SCOPE_REFUSED && tconnect->algorithm == tconnect_algorithm_sequential) ==> (__CPROVER_return_value == 0 && tconnect->num_tracks == 1 && \
+                  TC_T(tconnect, 0)->num_remote_ips == (int)num_remote_ips && TC_T(tconnect, 0)->fd4 == tconnect->fd4 && TC_T(tconnect, 0)->fd6 == tconnect->fd6 && \
+                  TC_T(tconnect, 0)->scope == scope && TC_TRACK_ARGS(TC_T(tconnect, 0)) && TC_T(tconnect, 0)->state != track_state_initial_delay))
+/* PO[C13] tconnect_connect.happy_eyeballs_one_track_per_family_present: as many tracks as families in the list */
+__CPROVER_ensures((!TC_SCOPE_REFUSED && tconnect->algorithm == tconnect_algorithm_happy_eyeballs) ==> (__CPROVER_return_value == 0 && \
+                  tconnect->num_tracks == (TC_EXISTS_FAM(remote_ips, num_remote_ips, AF_INET, xv_q4) ? 1 : 0) + (TC_EXISTS_FAM(remote_ips, num_remote_ips, AF_INET6, xv_q6) ? 1 : 0) && \
+                  tconnect->num_tracks >= 1))
+/* PO[C13] tconnect_connect.happy_eyeballs_ipv4_track: IPv4 present: track 0 has the IPv4 descriptor only, the whole list, and is held back 200 ms iff IPv6 is present too */
+__CPROVER_ensures((!TC_SCOPE_REFUSED && tconnect->algorithm == tconnect_algorithm_happy_eyeballs && TC_EXISTS_FAM(remote_ips, num_remote_ips, AF_INET, xv_q4b)) ==> ( \
+                  TC_T(tconnect, 0)->fd4 == tconnect->fd4 && TC_T(tconnect, 0)->fd6 == -1 && TC_T(tconnect, 0)->num_remote_ips == (int)num_remote_ips && TC_T(tconnect, 0)->scope == -1 && \
+                  TC_TRACK_ARGS(TC_T(tconnect, 0)) && \
+                  ((TC_T(tconnect, 0)->state == track_state_initial_delay) == (tconnect->num_tracks == 2)) && \
+                  (tconnect->num_tracks == 2 ==> TC_T(tconnect, 0)->timer_id >= 0)))
+/* PO[C13] tconnect_connect.happy_eyeballs_ipv6_track: IPv6 present: the last track has the IPv6 descriptor only, the whole list, the configured scope, and starts at once */
+__CPROVER_ensures((!TC_SCOPE_REFUSED && tconnect->algorithm == tconnect_algorithm_happy_eyeballs && TC_EXISTS_FAM(remote_ips, num_remote_ips, AF_INET6, xv_q6c)) ==> ( \
+                  TC_T(tconnect, tconnect->num_tracks - 1)->fd4 == -1 && TC_T(tconnect, tconnect->num_tracks - 1)->fd6 == tconnect->fd6 && \
+                  TC_T(tconnect, tconnect->num_tracks - 1)->num_remote_ips == (int)num_remote_ips && TC_T(tconnect, tconnect->num_tracks - 1)->scope == scope && \
+                  TC_TRACK_ARGS(TC_T(tconnect, tconnect->num_tracks - 1)) && TC_T(tconnect, tconnect->num_tracks - 1)->state != track_state_initial_delay))
+/* PO[C08] tconnect_connect.descriptors_stay_with_tconnect: nothing opened or closed */
+__CPROVER_ensures(TRK_FDT_SAME)
+;
+
+
+/* ---- tconnect_get_connected_fd ------------------------------------------------------------------------------------------------ */
+#define TC_TRACK_FIELDS(t) TRK_ASSIGNS(t), (t)->fd4, (t)->fd6
+/* a track of this tconnect: its descriptors are the tconnect's (or -1) */
+#define TC_OWNS(tc, t) (((t)->fd4 == -1 || (t)->fd4 == (tc)->fd4) && ((t)->fd6 == -1 || (t)->fd6 == (tc)->fd6))
+#define TC_TRACK_READY(tc, t, v) (TRK_REQUIRES_SHAPE_V(t, v) && TRK_ENTRY_STATE_OK(t) && TRK_REASON_OK(t) && TC_OWNS(tc, t))
+#define TRK_DONE(t) ((t)->state == track_state_finished)
+#define TC_N(tc) ((tc)->num_tracks)
+#define TC_ANY_IN_PROGRESS(tc) ((TC_N(tc) >= 1 && TRK_IN_PROGRESS(TC_T(tc, 0))) || (TC_N(tc) >= 2 && TRK_IN_PROGRESS(TC_T(tc, 1))))
+int tconnect_get_connected_fd(struct tconnect *tconnect, int *fd, int64_t *scope, struct tcp_opts *tcp_opts)
+__CPROVER_requires(__CPROVER_is_fresh(tconnect, sizeof(struct tconnect)) && tconnect->num_tracks >= 0 && tconnect->num_tracks <= MAX_NUM_TRACKS && TC_FDS_OK(tconnect))
+__CPROVER_requires(__CPROVER_is_fresh(fd, sizeof(*fd)) && __CPROVER_is_fresh(scope, sizeof(*scope)) && __CPROVER_is_fresh(tcp_opts, sizeof(*tcp_opts)))
+__CPROVER_requires(TC_N(tconnect) >= 1 ==> (TRK_FRESH(TC_T(tconnect, 0)) && TRK_NUM_OK(TC_T(tconnect, 0))))
+__CPROVER_requires(TC_N(tconnect) >= 1 ==> TRK_IPS_FRESH(TC_T(tconnect, 0)))
+__CPROVER_requires(TC_N(tconnect) >= 1 ==> TRK_LOCAL_FRESH(TC_T(tconnect, 0)))
+__CPROVER_requires(TC_N(tconnect) >= 1 ==> TC_TRACK_READY(tconnect, TC_T(tconnect, 0), xv_qa))
+__CPROVER_requires(TC_N(tconnect) >= 2 ==> (TRK_FRESH(TC_T(tconnect, 1)) && TRK_NUM_OK(TC_T(tconnect, 1))))
+__CPROVER_requires(TC_N(tconnect) >= 2 ==> TRK_IPS_FRESH(TC_T(tconnect, 1)))
+/* (the local address is borrowed from the caller: both tracks of a happy-eyeballs pair point at the same one) */
+__CPROVER_requires(TC_N(tconnect) >= 2 ==> (TC_T(tconnect, 1)->local_ip == TC_T(tconnect, 0)->local_ip))
+__CPROVER_requires(TC_N(tconnect) >= 2 ==> (TC_TRACK_READY(tconnect, TC_T(tconnect, 1), xv_qb) && TC_T(tconnect, 0)->fd6 == -1 && TC_T(tconnect, 1)->fd4 == -1))
+__CPROVER_requires(TRK_GHOST_OK_S(32) && xv_regs >= 2 && xv_timers >= 2 && xv_fk >= 0 && xv_fk < XV_NFD)
+__CPROVER_assigns(tconnect->fd4, tconnect->fd6, *fd, *scope, *tcp_opts, TCN_GHOST_ASSIGNS)
+__CPROVER_assigns(TC_N(tconnect) >= 1: TC_TRACK_FIELDS(TC_T(tconnect, 0)); TC_N(tconnect) >= 2: TC_TRACK_FIELDS(TC_T(tconnect, 1)))
+__CPROVER_ensures(__CPROVER_return_value == 0 || __CPROVER_return_value == -1)
+/* PO[C13] tconnect_get_connected_fd.success_iff_a_track_connected */
+__CPROVER_ensures((__CPROVER_return_value == 0) == ((TC_N(tconnect) >= 1 && TRK_DONE(TC_T(tconnect, 0))) || (TC_N(tconnect) >= 2 && TRK_DONE(TC_T(tconnect, 1)))))
+/* PO[C13] tconnect_get_connected_fd.first_connected_track_wins: when track 0 delivers, track 1 is not even looked at */
+__CPROVER_ensures((TC_N(tconnect) >= 2 && TRK_DONE(TC_T(tconnect, 0))) ==> (XV_SAME(TC_T(tconnect, 1)->state) && XV_SAME(TC_T(tconnect, 1)->ip_idx) && XV_SAME(TC_T(tconnect, 1)->fd_reg_id) && \
+                  XV_SAME(TC_T(tconnect, 1)->timer_id) && XV_SAME(TC_T(tconnect, 1)->fd4) && XV_SAME(TC_T(tconnect, 1)->fd6)))
+/* PO[C13] tconnect_get_connected_fd.EAGAIN_while_any_in_progress */
+__CPROVER_ensures((__CPROVER_return_value != 0 && TC_ANY_IN_PROGRESS(tconnect)) ==> (__CPROVER_return_value == -1 && xv_errno == EAGAIN))
+/* PO[C13] tconnect_get_connected_fd.else_errno_of_the_last_track: every track exhausted: the errno of the last failed attempt of the LAST track; no track at all: ENOENT */
+__CPROVER_ensures((__CPROVER_return_value != 0 && !TC_ANY_IN_PROGRESS(tconnect)) ==> (__CPROVER_return_value == -1 && \
+                  xv_errno == (TC_N(tconnect) == 0 ? ENOENT : TC_T(tconnect, TC_N(tconnect) - 1)->badness_reason)))
+/* PO[C13] tconnect_get_connected_fd.EAGAIN_only_while_in_progress: "try again" is reported only if there is something left to wait for */
+__CPROVER_ensures((__CPROVER_return_value == -1 && xv_errno == EAGAIN) ==> TC_ANY_IN_PROGRESS(tconnect))
+/* PO[C13,C08] tconnect_get_connected_fd.descriptor_handed_over: the connected descriptor is open, the caller's from now on: tconnect forgets it (its destructor will not close it) */
+__CPROVER_ensures(__CPROVER_return_value == 0 ==> (XV_FD_OURS(*fd) && xv_fdt.e[*fd].nonblock && XV_SAME(xv_errno) && \
+                  ((*fd == __CPROVER_old(tconnect->fd4) && tconnect->fd4 == -1 && XV_SAME(tconnect->fd6)) || \
+                   (*fd != __CPROVER_old(tconnect->fd4) && *fd == __CPROVER_old(tconnect->fd6) && tconnect->fd6 == -1 && XV_SAME(tconnect->fd4)))))
+/* PO[C08] tconnect_get_connected_fd.otherwise_keeps_its_descriptors: nothing opened, nothing closed */
+__CPROVER_ensures((__CPROVER_return_value == -1 ==> (XV_SAME(tconnect->fd4) && XV_SAME(tconnect->fd6))) && TRK_FDT_SAME)
 ;
 
 #endif /* XV_DNSTC_TC */
